@@ -18,7 +18,7 @@ package innerring
 // Table of Server-level chain actions and their membership guards:
 //
 //	action (trigger)                                   guard
-//	Start -> voteForFSChainValidator (startup)         InnerRingIndex() >= len(alphabet contracts)   <- lets -1 and low inner-ring-only indexes pass
+//	Start -> voteForFSChainValidator (startup)         AlphabetIndex() < 0 || >= len(alphabet contracts)  (was InnerRingIndex() >= len: let -1 and inner-ring-only indexes pass; fixed b6c4980)
 //	governance -> VoteForFSChainValidator (event)      governance: IsAlphabet(); then the same range guard
 //	RequestNotary (control API)                        IsAlphabet()
 //	SignNotary (control API)                           none (explicit operator command; out of the property's triggers)
@@ -338,12 +338,10 @@ func TestVerifC35VoteGuard(t *testing.T) {
 		}
 		// A non-member went past the membership guard and started the vote
 		// procedure (the stub has no chain, so it stops at the first read).
-		fp := "C35:vote-guard-inner-ring-index-not-alphabet"
+		// (both classes were confirmed on the original tree and fixed in /repo b6c4980)
+		fp := "vote-guard-inner-ring-index-not-alphabet"
 		if irIdx < 0 {
-			fp = "C35:vote-guard-negative-index"
-		}
-		if rec.Known(fp) {
-			return
+			fp = "vote-guard-negative-index"
 		}
 		t.Fatalf("[%s] node is not an alphabet member (role %s, inner ring index %d, alphabet index %d, %d alphabet contracts) but voteForFSChainValidator passed its guard and went on to the vote: RPCs %s, returned %v",
 			fp, role, irIdx, verifPos(self, comm), nAlpha, neoproxy.Describe(calls), err)
